@@ -226,10 +226,12 @@ def evaluate_cfi_directives(
     aux data table.
     """
 
-    def address_key(block: gtirb.CodeBlock) -> int:
+    def address_key(block: gtirb.CodeBlock) -> Tuple[int, bool]:
         if block.address is None:
             raise ValueError("all blocks must have an address")
-        return block.address
+        # A zero-sized block comes before a block that starts at the same
+        # address.
+        return block.address, block.size != 0
 
     abi = ABI.get(m)
     cfi_directives = _auxdata_offsetmap.cfi_directives.get(m)
